@@ -1129,17 +1129,22 @@ static int json_object_double_to_json_string_format(struct json_object *jso, str
 		}
 		if (p && (flags & JSON_C_TO_STRING_NOZERO))
 		{
+			/* the fraction digits end where an exponent, if any, starts */
+			char *frac_end = p + 1 + strspn(p + 1, "0123456789");
 			/* last useful digit, always keep 1 zero */
 			p++;
-			for (q = p; *q; q++)
+			for (q = p; q < frac_end; q++)
 			{
 				if (*q != '0')
 					p = q;
 			}
-			/* drop trailing zeroes */
-			if (*p != 0)
-				*(++p) = 0;
-			size = p - buf;
+			/* drop trailing zeroes of the fraction, keep the exponent */
+			if (p < frac_end)
+			{
+				++p;
+				memmove(p, frac_end, strlen(frac_end) + 1);
+			}
+			size = strlen(buf);
 		}
 	}
 	// although unlikely, snprintf can fail
